@@ -136,6 +136,19 @@ def generate(rng, tier):
             yield ["setslice", runs, s, e, new, rng.choice([n, n, n + 2, e, n + op_total(new)])]
         else:
             yield ["setitem", runs, s, new]
+    # 4b. subjects one of whose runs holds raw terminal output as TEXT (what `f + some_str` makes: no parsing on that
+    #     path): an escape sequence inside a run is ordinary characters for every operation on f
+    raw = [[["ab", list(ATTS[0])], ["x\x1b[31my\x1b[0m", list(ATTS[1])], ["cd", list(ATTS[2])]],
+           [["\x1b[1mq", list(ATTS[3])], ["\x9b4mz\x1b[", list(ATTS[0])]]]
+    for runs in raw:
+        n = total(runs)
+        for new in (NEWS[0], NEWS[3], NEWS[1]):
+            for s_ in range(0, n + 1):
+                yield ["splice", runs, new, s_, None]
+                for e_ in (s_, s_ + 1, s_ + 3, n):
+                    if e_ >= s_:
+                        yield ["splice", runs, new, s_, e_]
+        yield ["append", runs, NEWS[0]]
     # 5. outside the quantifier: negative start, end < start (model = implementation only)
     for _ in range(3000 if thorough else 300):
         runs = rng.choice(lays) if rng.random() < 0.7 else canon.rand_runs(rng)
